@@ -167,8 +167,13 @@ def r1(repo, res):
         d = profile_from(repo, table, cnv)
         k, v, outp = fold_normalize(repo, table, cnv, d, d["neutral"]["value"])
         d0 = profile_from(repo, table, cnv, custom=False)
-    except (Unfoldable, Raised, KeyError) as e:
+    except Unfoldable as e:
         res.err("C07.R1", f"profile writer outside folding language: {e}")
+        return
+    except (Raised, KeyError, TypeError, IndexError) as e:
+        res.ob("C07.R1", repo.func("profile::Profile.get_sam_profile_data"), f, False,
+               expected="profile written from a depth table, then the same table normalised against it -> exactly 2.0 in every covered region",
+               found=f"the profile writer / the normalisation raises {e}", key="self-profile-2.0")
         return
     cells = {k_: v_ for k_, v_ in outp.items() if d["G"][k_[1]][k_[0]]}
     ok = bool(cells) and all(abs(v_ - 2.0) < 1e-12 for v_ in cells.values()) and isinstance(d["neutral"]["value"], (int, float)) \
@@ -177,6 +182,34 @@ def r1(repo, res):
     res.ob("C07.R1", repo.func("profile::Profile.get_sam_profile_data"), f, ok,
            expected="profile written from a depth table, then the same table normalised against it -> exactly 2.0 in every covered region",
            found=str({f"{g}:{r}": round(v_, 6) for (g, r), v_ in outp.items()}), key="self-profile-2.0")
+    # an alignment file given as the profile: Profile.load scans it (the same routine) with the user's neutral region
+    from checks._profile import ProfileModel as _PM
+
+    try:
+        pm2 = _PM(repo)
+        reads = []
+        for p_ in table:
+            reads += [read_stub([(0, 1)], start=p_, seq="A")] * spec_depth(table, p_)
+        for p_, c_ in cnv.items():
+            reads += [read_stub([(0, 1)], start=p_, seq="A")] * c_
+        pm2.funcs["pysam.AlignmentFile"] = lambda path, reference_filename=None: Obj(
+            header={"SQ": [{"SN": "22"}]}, fetch=lambda region=None: [r_ for r_ in reads if region is None or region[1] <= r_.reference_start < region[2]])
+        pm2.funcs["GRange"] = _GR
+        pm2.files["sample.bam"] = b"BAM"
+        geneb = Obj(name="G", genome="hg19", regions=[{r_: _GR(*rng) for r_, rng in gr.items()} for gr in REGIONS])
+        pb = pm2.load(geneb, "sample.bam", _GR(*CN))
+        kb, vb, outb = fold_normalize(repo, table, cnv, pb.data, pb.neutral_value)
+        cellsb = {k_: v_ for k_, v_ in outb.items() if pb.data["G"][k_[1]][k_[0]]}
+        okb = kb != "raise" and bool(cellsb) and all(abs(v_ - 2.0) < 1e-12 for v_ in cellsb.values()) and tuple(pb.cn_region) == tuple(CN)
+        foundb = str({f"{g_}:{r_}": round(v_, 6) for (g_, r_), v_ in outb.items()}) + f"; neutral value {pb.neutral_value} over {tuple(pb.cn_region)}"
+    except Unfoldable as e:
+        res.err("C07.R1", f"Profile.load with an alignment file outside folding language: {e}")
+        return
+    except (Raised, KeyError, TypeError, IndexError, AttributeError) as e:
+        okb, foundb = False, f"raises {e}"
+    res.ob("C07.R1", repo.func("profile::Profile.load"), f, okb,
+           expected="profile taken from the sample's own alignment file (Profile.load with a .bam and the user's neutral region) -> exactly 2.0 in every covered region",
+           found=foundb, clause="profile taken from a BAM or from a profile file written by the profile command", key="self-profile-2.0:bam")
     # length-based pseudo profile and custom region override (the Profile class lifted whole)
     from checks._profile import ProfileModel
 
@@ -292,6 +325,15 @@ def r3(repo, res):
                found=f"gene {gene}; neutral {neutral}; profile {profile}",
                clause="the normalised depth of a two-copy reference reads as 2.0 (all three depths must be measured the same way)",
                key=f"sibling-depth:{name}")
+    try:
+        unaligned = depth_positions_profile(repo, None)
+    except Unfoldable as e:
+        res.err("C07.R3", f"profile scanner outside folding language: {e}")
+        return
+    except Raised as e:
+        unaligned = f"raises {e}"
+    res.ob("C07.R3", pf, pf, unaligned == [], expected="an unaligned read (no CIGAR) in the scanned window is skipped by the profile scanner", found=str(unaligned),
+           key="profile-scanner-unaligned")
     # the neutral counter and the gene pileup agree on which alignments count (sibling agreement over the SAM flag)
     ls = repo.func("sam::Sample._load_sam")
     res.analysed(ls)
